@@ -82,7 +82,7 @@ def accepted_shapes(Ngrid, os_, tier):
     return out
 
 
-SCRATCH = ['none', 'exact', 'plus1', 'plus2', 'dirty', 'nan-margin']
+SCRATCH = ['none', 'exact', 'plus1', 'plus2', 'dirty', 'nan-margin', 'zero-sum']
 
 
 def build_scratch(mode, Ngrid):
@@ -96,6 +96,12 @@ def build_scratch(mode, Ngrid):
         return np.zeros((Ngrid[0] + 2, Ngrid[1] + 1), dtype=complex)
     if mode == 'dirty':
         return np.full((Ngrid[0] + 1, Ngrid[1] + 2), 7 + 1j, dtype=complex)
+    if mode == 'zero-sum':
+        # prior content that cancels exactly (sum == 0, mean == 0) is prior content all the same
+        s = np.zeros((Ngrid[0] + 1, Ngrid[1]), dtype=complex)
+        k = np.arange(Ngrid[0] * Ngrid[1]).reshape(Ngrid)
+        s[:Ngrid[0], :Ngrid[1]] = (k - k[::-1, ::-1]) * (1 + 2j)      # antisymmetric inside the working region
+        return s
     if mode == 'nan-margin':
         s = np.full((Ngrid[0] + 2, Ngrid[1] + 2), np.nan + 0j, dtype=complex)
         s[:Ngrid[0], :Ngrid[1]] = 3 - 2j
@@ -213,6 +219,22 @@ def chk_refuse(case, acc, seed):
                 pass
             except Exception as e:
                 acc.violation('fft:small-scratch-wrong-exception', dict(case, scratch_shape=sh), repr(e))
+    elif what == 'image-wavefront-tilt':
+        import lentil as _l
+        shape = tuple(cfg['pupil'])
+        amp, opd, _m = op.pupil_arrays(shape, 'full', seed, tag=5)
+        for how in ('wavefront', 'plane'):
+            w = _l.Wavefront(cfg['wl'], focal_length=cfg['z'], tilt=[1e-6, -2e-6] if how == 'wavefront' else None) * \
+                _l.Image(amplitude=amp.copy(), opd=opd.copy(), pixelscale=cfg['dx'])
+            if how == 'plane':
+                w = w * _l.Tilt(x=1e-6, y=0)
+            try:
+                _l.propagate_fft(w, du, oversample=os_)
+                acc.violation(f'fft:tilt-not-refused:image-plane:{how}', dict(case, how=how), 'an image-plane wavefront carrying tilt metadata was propagated by the FFT path')
+            except NotImplementedError:
+                pass
+            except Exception as e:
+                acc.violation(f'fft:tilt-wrong-exception:image-plane:{how}', dict(case, how=how), repr(e))
     else:
         w, _ = make(cfg, seed, tilt=what)
         try:
@@ -280,7 +302,7 @@ def t_cfg(arg, acc):
                                 acc.transitions += 1
                                 chk({'kind': 'fft', 'cfg': cfg, 'shape': shape, 'scratch': sm}, acc, seed)
                         if eps == 0 and support == 'full':
-                            for what in ('shape', 'scratch-small', 'fit', 'wavefront', 'plane'):
+                            for what in ('shape', 'scratch-small', 'fit', 'wavefront', 'plane', 'image-wavefront-tilt'):
                                 acc.transitions += 1
                                 chk_refuse({'kind': 'refuse', 'cfg': cfg, 'what': what}, acc, seed)
 
